@@ -482,7 +482,7 @@ def enumerated(rng):
             i = c.index("%s")
             s = bi(c, i)
             out.append(Site("malformed-number", c % lit, (s, s + len(lit.encode())), note=lit))
-    sigs = ["*", "a, *", "a=1, *", "*, **k", "a, /, *", "a, *, **k", "*,", "a, b, *, **kw"]
+    sigs = ["*", "a, *", "a=1, *", "*, **k", "a, /, *", "a, *, **k", "*,", "a, b, *, **kw", "*, **", "a, *, **"]
     out += signature_violations()
     out += call_argument_violations()
     for sg in sigs:
@@ -634,7 +634,7 @@ def check_site(h, res, site, tag):
 
 
 def classify_accept(site):
-    if site.rule == "bare-star" and site.note in ("*, **k", "a, *, **k", "a, b, *, **kw", "before **kwargs", "a, /, *, **k"):
+    if site.rule == "bare-star" and site.note in ("*, **k", "a, *, **k", "a, b, *, **kw", "before **kwargs", "a, /, *, **k", "*, **", "a, *, **"):
         return "bare-star-directly-before-kwargs-accepted"
     return "unlisted:rule-violation-accepted"
 
